@@ -442,6 +442,7 @@ class DeferredSender (threading.Thread):
 
   def send (self, con, data):
     with self._lock:
+      if con.disconnected: return # Went down while we waited for the lock
       self.sending = True
 
       data = self._sliceup(data)
